@@ -31,6 +31,28 @@ def install(R):
                                         patterns=[T.sget(ct, i), T.sget(cs, i)])))
     S["Grown"] = grown
 
+    def grow_crash(eng, fr, loc, b, n0):
+        """what a kill at this instant leaves: every real (non-temporary) name looks as at entry, except that the result file of this
+        batch may already hold the complete, correct result tuple (never a partial one)"""
+        p = S["ResultPath"](eng, fr, loc, b).t
+        bp = S["BatchPath"](eng, fr, loc, b).t
+        g0, g = fr.old.ghost, fr.st.ghost
+        cs = z3.Select(g0["FS_ct"].t, bp)
+        ct = z3.Select(g["FS_ct"].t, p)
+        n0 = eng.as_int(n0, fr)
+        i = z3.Int(fresh_name("i"))
+        q = z3.Const(fresh_name("q"), V)
+        callret = R.symbols["callret"]
+        istmp = R.symbols["istmp"]
+        same = R.symbols["same_at"](g0, g, q)
+        grown_ = z3.And(z3.Select(g["FS_ex"].t, p), z3.Select(g["FS_ok"].t, p), T.is_VObj(ct), T.tag(ct) == T.TAG["tuple"], T.slen(ct) == T.slen(cs),
+                        z3.ForAll([i], z3.Implies(z3.And(0 <= i, i < T.slen(cs)),
+                                                  z3.And(T.sget(ct, i) == callret(n0 + i), z3.Select(g["calls_kw"].t, n0 + i) == T.sget(cs, i))),
+                                  patterns=[T.sget(ct, i), T.sget(cs, i)]))
+        R.symbols["note_tmp_names"](eng, fr)
+        return mk_bool(z3.ForAll([q], z3.Implies(z3.Not(istmp(q)), z3.If(q == p, z3.Or(same, grown_), same))))
+    S["GrowCrash"] = grow_crash
+
     R.add(K + "grow", result="none", props=["C04", "C08"],
           types={"crop": "obj:Crop", "verbosity": "int"},
           fn_params={"fn": dict()},
@@ -63,7 +85,9 @@ def install(R):
                   "OSError": dict(ensures=["fs_same_except(ResultPath(crop.location, batch_number))"]),
                   "EOFError": dict(ensures=["fs_unchanged()"]), "FileNotFoundError": dict(ensures=["fs_unchanged()"])},
           on_raise=[("nothing_but_this_result_touched", "fs_same_except(ResultPath(crop.location, batch_number))"),
-                    ("no_result_recorded_unless_every_case_returned", "implies(not called('write_to_disk'), fs_unchanged())")])
+                    ("no_result_recorded_unless_every_case_returned", "implies(not called('write_to_disk'), fs_unchanged())")],
+          crash=[("crash.result_file_old_or_complete_and_correct", "GrowCrash(crop.location, batch_number, old(ncalls()))")])
+    R.get(K + "grow").props = ["C04", "C08", "C10"]
     return R
 
 
@@ -98,24 +122,34 @@ def install_sow(R):
                            "mat(fs_content(InfoPath(self.location)), '_batch_remainder') == self._batch_remainder and "
                            "mat(fs_content(InfoPath(self.location)), 'shuffle') == self.shuffle and mhas(fs_content(InfoPath(self.location)), 'shuffle')")
 
+    info_crash = "OldOr(InfoPath(self.location), " + info_saved[1] + ")"
+    fn_crash = "OldOr(FnPath(self.location), fs_exists(FnPath(self.location)) and fs_complete(FnPath(self.location)))"
+    prep_crash = ("OldOr2(FnPath(self.location), fs_exists(FnPath(self.location)) and fs_complete(FnPath(self.location)), "
+                  "InfoPath(self.location), " + info_saved[1] + ")")
     R.add(K + "Crop.save_info", cls="Crop", result="none", props=["C04", "C07"],
           requires=[("raw_crop", "self.farmer is None")],
           modifies=["ghost:FS"],
           ensures=[info_saved, ("frame", "fs_same_except(InfoPath(self.location))")],
-          raises={"OSError": dict(ensures=["fs_same_except(InfoPath(self.location))"])},
+          raises={"OSError": dict(ensures=["fs_same_except(InfoPath(self.location))", info_crash])},
+          crash=[("crash.settings_file_old_or_complete_and_new", info_crash)],
           notes="raw crops (no farmer); the pickled farmer of Runner/Harvester/Sampler crops is C06")
+    R.get(K + "Crop.save_info").props = ["C04", "C07", "C10"]
 
     R.add(K + "Crop.save_function_to_disk", cls="Crop", result="none", props=["C04"],
           modifies=["ghost:FS"],
           ensures=[("saved", "fs_exists(FnPath(self.location)) and fs_complete(FnPath(self.location))"), ("frame", "fs_same_except(FnPath(self.location))")],
-          raises={"OSError": dict(ensures=["fs_same_except(FnPath(self.location))"])})
+          raises={"OSError": dict(ensures=["fs_same_except(FnPath(self.location))", fn_crash])},
+          crash=[("crash.function_file_old_or_complete", fn_crash)])
+    R.get(K + "Crop.save_function_to_disk").props = ["C04", "C10"]
     R.add(K + "Crop.ensure_dirs_exists", cls="Crop", inline=True)
 
     R.add(K + "Crop.prepare", cls="Crop", result="none", props=["C04", "C07"],
           requires=[("raw_crop", "self.farmer is None")],
           modifies=["ghost:FS"],
           ensures=[info_saved, ("frame", "fs_same_except2(InfoPath(self.location), FnPath(self.location))")],
-          raises={"OSError": dict(ensures=["fs_same_except2(InfoPath(self.location), FnPath(self.location))"])})
+          raises={"OSError": dict(ensures=["fs_same_except2(InfoPath(self.location), FnPath(self.location))", prep_crash])},
+          crash=[("crash.settings_and_function_files_old_or_complete", prep_crash)])
+    R.get(K + "Crop.prepare").props = ["C04", "C07", "C10"]
     return R
 
 
